@@ -116,8 +116,14 @@ def structural_invariants(m):
                 if not (0 <= int(r) < ne):
                     out.append(f"recording ({r},{s}) refers to a missing edge")
             else:
-                out.append(f"recording of unknown state {s}")
+                out.append(f"dangling: recording of unknown state {s}")
+    known_states = None
     for k in m.externals:
+        if known_states is None:
+            a, b = m._get_state_names()
+            known_states = set(a) | set(b)
+        if k not in known_states:
+            out.append(f"dangling: input for unknown state {k}")
         inds = np.asarray(m.external_inds.get(k, [])).tolist()
         arr = np.asarray(m.externals[k])
         if arr.ndim != 2 or arr.shape[0] != len(inds):
@@ -132,6 +138,9 @@ def structural_invariants(m):
                 break
     for p, inds in zip(m.trainable_params, m.indices_set_by_trainables):
         key = next(iter(p.keys()))
+        if key not in nd.columns and key not in ed.columns:
+            out.append(f"dangling: trainable of unknown key {key}")
+            continue
         limit = n if key in nd.columns else ne
         for i in np.asarray(inds).reshape(-1).tolist():
             if not (0 <= int(i) < limit):
